@@ -395,11 +395,35 @@ func runWorker(c *Check, tier string, q *coord, id int, deadline time.Time, scra
 			ch <- rd{l, e}
 		}()
 		var got rd
-		limit := time.Until(deadline) + 10*time.Minute
-		select {
-		case got = <-ch:
-		case <-time.After(limit):
-			got = rd{nil, fmt.Errorf("worker watchdog: no result for job %+v", j)}
+		limit := time.After(time.Until(deadline) + 10*time.Minute)
+		tick := time.NewTicker(100 * time.Millisecond)
+		stopped := false
+	waitLoop:
+		for {
+			select {
+			case got = <-ch:
+				break waitLoop
+			case <-limit:
+				got = rd{nil, fmt.Errorf("worker watchdog: no result for job %+v", j)}
+				break waitLoop
+			case <-tick.C:
+				q.mu.Lock()
+				st := q.stop
+				q.mu.Unlock()
+				if st {
+					stopped = true
+					break waitLoop
+				}
+			}
+		}
+		tick.Stop()
+		if stopped {
+			// another worker found a violation (or broke): abandon this job
+			q.mu.Lock()
+			q.inflight--
+			q.mu.Unlock()
+			q.cond.Broadcast()
+			return
 		}
 		var res Result
 		if got.err == nil {
@@ -440,6 +464,9 @@ type Evidence struct {
 }
 
 func writeEvidence(ev *Evidence) {
+	if os.Getenv("VERIF_NO_EVIDENCE") != "" {
+		return
+	}
 	dir := filepath.Join(VerifDir(), "evidence")
 	os.MkdirAll(dir, 0o755)
 	b, _ := json.MarshalIndent(ev, "", " ")
